@@ -719,6 +719,9 @@ class Engine:
         lb, ab = self.seq_parts(b, st)
         i = z3.Int(fresh_name('i'))
         arr = z3.Lambda([i], z3.If(i < la, T.Sel(aa, i), T.Sel(ab, i - la)))
+        if not hasattr(self, 'concat_prov'):
+            self.concat_prov = {}
+        self.concat_prov[arr.get_id()] = (arr, la, aa, lb, ab)
         return self.mk_list(st, et, la + lb, arr)
 
     def np_binop(self, op, a, b, st):
@@ -914,8 +917,7 @@ class Engine:
                 return z3.BoolVal(False)
             xe = self.coerce(x, cont.ty.args[0], st)
             ln, arr = self.seq_parts(cont, st)
-            i = z3.Int(fresh_name('j'))
-            return z3.Exists([i], z3.And(0 <= i, i < ln, T.Sel(arr, i) == self.as_term(xe, st)))
+            return self.seq_member(ln, arr, self.as_term(xe, st))
         if k == 'Tuple':
             return z3.Or(*[self.equals(self.tuple_get(cont, i, st), x, st) for i in range(len(cont.ty.args))]) \
                 if cont.ty.args else z3.BoolVal(False)
@@ -926,6 +928,16 @@ class Engine:
             d = self.call_contract_for_method(cont, '__contains__', [x], {}, st, None)
             return self.truth(d, st)
         raise Unsupported(f'`in` on {cont.ty!r}')
+
+    def seq_member(self, ln, arr, xt):
+        """x in seq. A concatenation built by this engine is split into its two parts (membership in a + b is
+        membership in a or in b), so that no index arithmetic is left to the solver's instantiation."""
+        prov = getattr(self, 'concat_prov', {}).get(arr.get_id())
+        if prov is not None and z3.eq(prov[0], arr):
+            _, la, aa, lb, ab = prov
+            return z3.Or(self.seq_member(la, aa, xt), self.seq_member(lb, ab, xt))
+        i = z3.Int(fresh_name('j'))
+        return z3.Exists([i], z3.And(0 <= i, i < ln, T.Sel(arr, i) == xt))
 
     def src(self, node):
         try:
@@ -1079,7 +1091,8 @@ class Engine:
             key = self.coerce(self.eval(sl, st), kt, st)
             term = self.load(obj, st)
             kterm = self.as_term(key, st)
-            self.total(st, T.Sel(T.dict_dom(obj.ty, term), kterm), f'key present: {what}', node)
+            if not (isinstance(obj.loc, CellLoc) and obj.loc.n in getattr(self, 'total_dicts', ())):
+                self.total(st, T.Sel(T.dict_dom(obj.ty, term), kterm), f'key present: {what}', node)
             return self.unbox(vt, T.Sel(T.dict_val(obj.ty, term), kterm), st)
         if k == 'Np2':
             term = self.load(obj, st)
